@@ -291,9 +291,9 @@ func c04(ctx *core.Ctx) {
 		t := rt.GenTable(r, o)
 		ctx.Case(ti, "router="+router+" table="+core.JSON(t))
 		bo := rt.DefaultBuild(router)
-		bo.Switched = ti%4 == 2 // the router was configured back and forth before use
+		bo.Switched = ti%8 == 2 || ti%8 == 5 // the router was configured back and forth before use (both parities = both routers)
 		c := rt.Build(t, bo)
-		if ti%4 == 1 {
+		if ti%8 == 1 || ti%8 == 4 {
 			// an adapted net/http middleware that hands a derived request on (r.WithContext), in front of every route
 			c.Filter(restful.HttpMiddlewareHandlerToFilter(func(next http.Handler) http.Handler {
 				return http.HandlerFunc(func(w http.ResponseWriter, r *http.Request) {
@@ -469,8 +469,8 @@ func c14(ctx *core.Ctx) {
 		t := rt.GenTable(r, o)
 		ctx.Case(ti, "router="+router+" table="+core.JSON(t))
 		bo14 := rt.DefaultBuild(router)
-		bo14.Switched = ti%4 == 2 // the container's router was configured back and forth before use
-		bo14.Dynamic = withOptions && ti%2 == 1
+		bo14.Switched = ti%8 == 2 || ti%8 == 5 // the container's router was configured back and forth before use
+		bo14.Dynamic = withOptions && (ti/3)%2 == 1
 		c, wss := rt.BuildWS(t, bo14)
 		if withOptions {
 			// the Allow header the OPTIONS filter computes is also "decided by the framework"
